@@ -464,6 +464,8 @@ class StmtMixin(object):
     def x_For(self, node, env):
         spec = self.loop_spec(node) if (self.frame is not None and self.frame.verifying) else None
         it = self.eval(node.iter, env)
+        if hasattr(it, "freeze"):
+            it = it.freeze()
         # re-yield of a callee generator's trace:  for item in g(...): yield item
         if isinstance(it, GenVal) and self.is_reyield(node):
             self.frame.ytrace.add_seq(it.seq)
@@ -553,7 +555,7 @@ class StmtMixin(object):
             self.assign(node.target, item, env)
             self.frame.loop_index = getattr(self.frame, "loop_index", {})
             self.frame.loop_index[spec.ordinal] = k
-            self.path.event("loop_iter", spec.ordinal, k)
+            self.path.event("loop_iter", spec.ordinal, k, it)
             try:
                 self.exec_block(node.body, env)
             except ContinueEx:
